@@ -529,6 +529,7 @@ func c01Main(r *run.Runner) {
 		}
 	})
 	c01Wide(r, getState)
+	c01StringCompositions(r, getState)
 	// leaf kinds
 	r.Sweep("leaf-kinds", 3, func(w *run.Worker, item int64) {
 		st := getState(w)
